@@ -1,23 +1,32 @@
 import Nstd.Hash.Model
 /-
-  `hash(const String&)` over the model of the String view it reads (`StrView`, `conv`, `hashView`).
+  `hash(const String&)` over the model of the String view it reads (`StrView`, `conv`, `hashViewWith`), for ANY
+  translated body (`reads`, `of`) whose reads stay within the text and its terminator.
 -/
 namespace Nstd.Hash
 
-theorem hashReads_le (len : Nat) : ∀ i ∈ hashStringReads len, i ≤ len := by
-  intro i hi
-  simp only [hashStringReads, List.mem_cons, List.not_mem_nil, or_false] at hi
-  rcases hi with e | e | e
-  · omega
-  · have := Nat.div_le_self len 2; omega
-  · split at e <;> omega
+theorem readAll_congr (s s' : List Nat) (l : List Nat) (h : ∀ i ∈ l, s[i]? = s'[i]?) : readAll s l = readAll s' l := by
+  induction l with
+  | nil => rfl
+  | cons x r ih =>
+    simp only [readAll]
+    rw [h x List.mem_cons_self, ih (fun i hi => h i (List.mem_cons_of_mem _ hi))]
 
-/-- the hash code depends only on the bytes at the indices `≤ len` of what `s` points to -/
-theorem hashString_congr (s s' : List Nat) (len : Nat) (h : ∀ i, i ≤ len → s[i]? = s'[i]?) :
-    hashString s len = hashString s' len := by
-  unfold hashString
-  rw [h 0 (Nat.zero_le _), h (len / 2) (Nat.div_le_self len 2),
-    h (len - (if len ≠ 0 then 1 else 0)) (Nat.sub_le _ _)]
+theorem readAll_isSome (s : List Nat) (l : List Nat) (h : ∀ i ∈ l, i < s.length) : (readAll s l).isSome = true := by
+  induction l with
+  | nil => rfl
+  | cons x r ih =>
+    have h1 := ih (fun i hi => h i (List.mem_cons_of_mem _ hi))
+    simp only [readAll, List.getElem?_eq_getElem (h x List.mem_cons_self)]
+    cases hr : readAll s r with
+    | none => rw [hr] at h1; cases h1
+    | some cs => rfl
+
+/-- the hash code depends only on the bytes at the indices read -/
+theorem hashWith_congr (reads : Nat → List Nat) (of : Nat → List Nat → Nat) (s s' : List Nat) (len : Nat)
+    (h : ∀ i ∈ reads len, s[i]? = s'[i]?) : hashWith reads of s len = hashWith reads of s' len := by
+  unfold hashWith
+  rw [readAll_congr s s' _ h]
 
 theorem StrView.text_length (v : StrView) (hv : v.off + v.len ≤ v.buf.length) : v.text.length = v.len := by
   simp only [StrView.text, List.length_take, List.length_drop]
@@ -46,12 +55,13 @@ theorem StrView.conv_spec (v : StrView) (hv : v.off + v.len < v.buf.length) :
   · simp only [hb, if_false]
     exact ⟨_, rfl, fun _ _ => rfl⟩
 
-/-- `hash(const String&)` is a function of the text alone -/
-theorem hashView_eq (v : StrView) (hv : v.off + v.len < v.buf.length) :
-    hashView v = hashString (v.text ++ [0]) v.text.length := by
+/-- `hash(const String&)` is a function of the text alone, provided its reads stay within text + terminator -/
+theorem hashViewWith_eq (reads : Nat → List Nat) (of : Nat → List Nat → Nat) (v : StrView)
+    (hb : ∀ i ∈ reads v.len, i ≤ v.len) (hv : v.off + v.len < v.buf.length) :
+    hashViewWith reads of v = hashWith reads of (v.text ++ [0]) v.text.length := by
   obtain ⟨s, hs, hrd⟩ := v.conv_spec hv
-  unfold hashView
+  unfold hashViewWith
   rw [hs, v.text_length (Nat.le_of_lt hv)]
-  exact hashString_congr _ _ _ hrd
+  exact hashWith_congr _ _ _ _ _ (fun i hi => hrd i (hb i hi))
 
 end Nstd.Hash
